@@ -1,7 +1,1436 @@
-//! C12 — not built yet.
-use crate::report::Tier;
+//! C12 — no query text can crash or hang the embedding process.
+//!
+//! Runtime monitor with process isolation. The parent (this file, `run`) generates a
+//! deterministic corpus per query language (`c12_gen*.rs`: fixed directed corpus, nesting ladders,
+//! seeded random part), writes batches to a scratch directory and runs each batch in a child
+//! process of the same binary (hidden sub-mode: environment variable `VH_C12_CHILD=<batch file>`),
+//! 16 children in parallel. The child limits its address space to 4 GiB, builds the fixture
+//! databases, and runs every input through the real `Session::execute*` entry point inside
+//! `util::catch` on an 8 MiB thread, with a watchdog that aborts the process when one call
+//! exceeds the bound. The parent maps (result lines, exit status, stderr) to an outcome class:
+//!   ok / err (allowed) — panic / stack overflow / abort / signal / rlimit / timeout (deviation).
+//! A dead batch is continued after the culprit; the culprit is re-run alone (a timeout with a
+//! 60 s bound) and only what reproduces alone is reported; an unreproduced death is inconclusive.
+//!
+//! Details that matter:
+//! * bound = 10 s per call: the watchdog fires when 10 s of wall-clock (stretched by the
+//!   oversubscription factor loadavg/cores when the machine is overloaded) have passed AND the
+//!   process has burnt 10 s of CPU inside the call or all its threads are asleep (blocked call).
+//!   On an idle machine this is the plain 10 s bound; on a loaded one it does not fire early.
+//! * translate pre-pass: `translate_<lang>` alone under a 100 ms bound marks *suspected* parser
+//!   hangs cheaply; the first two per signature are judged with the real entry point and the real
+//!   bounds, the rest only counted (the open SPARQL parser loop C12-F17 is hit by ~7 % of mutated
+//!   inputs; without this the check would need hours).
+//! * panic site: `<file under /repo>::<enclosing fn>` of the panic location (all engine panics seen
+//!   are arithmetic / slicing / unwrap, whose location is the in-repo line); the child installs its
+//!   own hook for that because symbolising a backtrace costs seconds per panic in the dev binary.
+//! * every directed input runs on its own fresh fixture (order independent, reproducible alone);
+//!   the random part shares fixtures within a batch (state accumulates, rebuilt when grown).
+//! * a self-test of outcome detection (pseudo inputs: panic, infinite recursion, sleep, spin,
+//!   allocation until RLIMIT, abort, SIGSEGV) runs on every invocation.
+//!
+//! Signature: `c12:<language>:<outcome>@<panic site>:<message class>` for panics,
+//! `c12:<language>:<stackoverflow|timeout|rlimit|abort|signal>@<…>:<construct>` otherwise.
 
-pub fn run(_tier: Tier, _seed: u64) -> ! {
-    println!("INCONCLUSIVE property=C12 reason=monitor not built yet");
-    std::process::exit(2)
+#[path = "c12_gen.rs"]
+mod cgen;
+#[path = "c12_seeds.rs"]
+mod seeds;
+
+use crate::report::{Report, Tier};
+use crate::util;
+use grafeo_common::types::Value;
+use grafeo_engine::GrafeoDB;
+use serde_json::json;
+use std::collections::{BTreeMap, HashMap, HashSet};
+use std::io::Write;
+use std::path::Path;
+use std::sync::atomic::{AtomicI64, AtomicU64, AtomicUsize, Ordering};
+use std::sync::{Arc, Mutex};
+use std::time::{Duration, Instant};
+
+pub const LANGS: [&str; 5] = ["gql", "cypher", "gremlin", "graphql", "sparql"];
+pub const L_GQL: u8 = 0;
+pub const L_CYPHER: u8 = 1;
+pub const L_GREMLIN: u8 = 2;
+pub const L_GRAPHQL: u8 = 3;
+pub const L_SPARQL: u8 = 4;
+/// pseudo language: harness self-test of outcome detection (never reaches the engine)
+const L_SELFTEST: u8 = 9;
+
+const BOUND_S: u64 = 10;
+const CONFIRM_BOUND_S: u64 = 60;
+/// Pre-pass: the language's public `translate_*` (lex + parse + translate, the first thing every
+/// execute* entry point does) normally takes microseconds. When it alone exceeds this bound the
+/// child stops early and reports a *suspected* hang, which the parent then judges with the real
+/// entry point and the real bounds (10 s, then 60 s alone). Only an optimisation: a parser loop
+/// costs 0.1 s instead of 70 s of wall clock; it never decides a verdict.
+const TRANSLATE_BOUND_MS: u64 = 100;
+/// suspected translate hangs confirmed with the full protocol per signature and run; the rest
+/// are counted (evidence) but not judged
+const SUSPECT_CONFIRMATIONS: u32 = 2;
+const RLIMIT_AS_BYTES: u64 = 4 << 30;
+const STACK_BYTES: usize = 8 << 20;
+const PARALLEL: usize = 16;
+
+/// One input of the corpus.
+#[derive(Clone, Debug)]
+pub struct Input {
+    pub lang: u8,
+    /// fixture: 0 empty, 1 small mixed graph (+ RDF triples), 2 dense 6-clique (+ RDF cycle) — shared
+    /// by the inputs of a batch (state accumulates; rebuilt when grown); 3, 4, 5: the same three
+    /// kinds created freshly for this input alone
+    pub fx: u8,
+    /// parameter map: "" none, "p<k>" pool value k under every common name, "all" every pool
+    /// value under p0..pN, "r<case>" a random value (vals::random) under every common name
+    pub par: String,
+    /// corpus family (evidence)
+    pub fam: &'static str,
+    /// construct class used in the signature of non-panic outcomes
+    pub cons: String,
+    pub text: String,
+}
+
+impl Input {
+    pub fn new(lang: u8, fx: u8, fam: &'static str, text: impl Into<String>) -> Self {
+        Input { lang, fx, par: String::new(), fam, cons: fam.to_string(), text: text.into() }
+    }
+    pub fn cons(mut self, c: &str) -> Self {
+        self.cons = c.to_string();
+        self
+    }
+    pub fn par(mut self, p: impl Into<String>) -> Self {
+        self.par = p.into();
+        self
+    }
+    fn to_json(&self) -> String {
+        serde_json::to_string(&json!([self.lang, self.fx, self.par, self.fam, self.cons, self.text])).unwrap()
+    }
+}
+
+fn lang_name(l: u8) -> &'static str {
+    if l == L_SELFTEST { "selftest" } else { LANGS[l as usize] }
+}
+
+// =====================================================================================
+// child
+// =====================================================================================
+
+pub const PARAM_NAMES: [&str; 12] = ["p", "x", "name", "age", "id", "value", "v", "list", "n", "min", "limit", "param"];
+
+fn build_params(spec: &str, seed: u64) -> Option<HashMap<String, Value>> {
+    if spec.is_empty() {
+        return None;
+    }
+    let pool = crate::vals::pool();
+    let mut m = HashMap::new();
+    if spec == "all" {
+        for (i, v) in pool.iter().enumerate() {
+            m.insert(format!("p{i}"), v.clone());
+        }
+        for n in PARAM_NAMES {
+            m.insert(n.to_string(), pool[i64_index(&pool)].clone());
+        }
+    } else if spec == "none" {
+        // empty map through the *_with_params entry point
+    } else if let Some(k) = spec.strip_prefix('p') {
+        let k: usize = k.parse().unwrap_or(0) % pool.len();
+        for n in PARAM_NAMES {
+            m.insert(n.to_string(), pool[k].clone());
+        }
+    } else if let Some(c) = spec.strip_prefix('r') {
+        let c: u64 = c.parse().unwrap_or(0);
+        let mut r = crate::rng::Rng::new(seed, "c12-param", c);
+        for n in PARAM_NAMES {
+            m.insert(n.to_string(), crate::vals::random(&mut r, 3));
+        }
+    }
+    Some(m)
+}
+fn i64_index(pool: &[Value]) -> usize {
+    pool.iter().position(|v| matches!(v, Value::Int64(42))).unwrap_or(0)
+}
+
+/// Deterministic fixtures (direct API, independent of the parsers under test).
+fn build_fixture(kind: u8) -> GrafeoDB {
+    use grafeo_core::graph::rdf::{Term, Triple};
+    let db = GrafeoDB::new_in_memory();
+    let ex = |s: &str| Term::iri(format!("http://example.org/{s}"));
+    let foaf = |s: &str| Term::iri(format!("http://xmlns.com/foaf/0.1/{s}"));
+    match kind {
+        1 => {
+            use crate::vals::{list, map, s, vector};
+            let names = ["Alice", "Bob", "Carol", "Dave", "Zoë", "", "日本", "Eve", "a'b\"c", "Mallory"];
+            let ages: [Option<i64>; 10] =
+                [Some(30), Some(25), Some(0), Some(i64::MAX), Some(i64::MIN), None, Some(-1), Some(42), Some(1 << 53), Some(7)];
+            let scores = [1.5, 0.0, -0.0, f64::NAN, f64::INFINITY, 1e308, -2.5, 5e-324, f64::NEG_INFINITY, 3.0];
+            let mut people = Vec::new();
+            for i in 0..10 {
+                let mut props: Vec<(String, Value)> = vec![
+                    ("name".into(), s(names[i])),
+                    ("score".into(), Value::Float64(scores[i])),
+                    ("active".into(), Value::Bool(i % 2 == 0)),
+                    ("id".into(), Value::Int64(i as i64)),
+                ];
+                if let Some(a) = ages[i] {
+                    props.push(("age".into(), Value::Int64(a)));
+                }
+                match i % 5 {
+                    0 => props.push(("tags".into(), list(vec![s("a"), s("b"), Value::Int64(1)]))),
+                    1 => props.push(("tags".into(), list(vec![]))),
+                    2 => props.push(("meta".into(), map(vec![("k", Value::Int64(1)), ("n", Value::Null)]))),
+                    3 => props.push(("vec".into(), vector(&[1.0, 0.0, -1.0]))),
+                    _ => props.push(("city".into(), Value::Null)),
+                }
+                if i == 7 {
+                    props.push(("data".into(), Value::Bytes(Arc::from(&[0u8, 255, 1][..]))));
+                    props.push(("ts".into(), Value::Timestamp(grafeo_common::types::Timestamp::from_micros(1_700_000_000_000_000))));
+                }
+                let labels: &[&str] = if i % 3 == 0 { &["Person", "Employee"] } else { &["Person"] };
+                people.push(db.create_node_with_props(labels, props));
+            }
+            let mut cities = Vec::new();
+            for (i, c) in ["NYC", "LA", "Zürich", "東京"].iter().enumerate() {
+                cities.push(db.create_node_with_props(
+                    &["City"],
+                    vec![("name".to_string(), s(c)), ("population".to_string(), Value::Int64(if i == 0 { i64::MAX } else { 1000 * i as i64 }))],
+                ));
+            }
+            let mut comps = Vec::new();
+            for c in ["Acme", "Globex", "Initech"] {
+                comps.push(db.create_node_with_props(&["Company"], vec![("name".to_string(), s(c)), ("founded".to_string(), Value::Int64(1999))]));
+            }
+            let mut things = Vec::new();
+            for i in 0..3 {
+                things.push(db.create_node_with_props(&["Thing", "User"], vec![("name".to_string(), s("t")), ("val".to_string(), Value::Int64(i))]));
+            }
+            let _ = db.create_node(&[]);
+            // 30 edges: KNOWS ring + chords (with props), LIVES_IN, WORKS_AT, a self loop, parallel edges
+            for i in 0..10 {
+                db.create_edge_with_props(
+                    people[i],
+                    people[(i + 1) % 10],
+                    "KNOWS",
+                    vec![
+                        ("since".to_string(), Value::Int64(if i == 3 { i64::MAX } else { 2000 + i as i64 })),
+                        ("weight".to_string(), Value::Float64(if i == 4 { f64::NAN } else { i as f64 / 2.0 })),
+                    ],
+                );
+            }
+            for (a, b) in [(0, 2), (0, 5), (2, 7), (3, 3), (0, 1), (9, 4)] {
+                db.create_edge(people[a], people[b], "KNOWS");
+            }
+            for i in 0..8 {
+                db.create_edge(people[i], cities[i % 4], "LIVES_IN");
+            }
+            for i in 0..5 {
+                db.create_edge_with_props(people[i], comps[i % 3], "WORKS_AT", vec![("role".to_string(), s("dev"))]);
+            }
+            db.create_edge(things[0], things[1], "REL");
+            // RDF
+            let st = db.rdf_store();
+            let xsd = |t: &str| format!("http://www.w3.org/2001/XMLSchema#{t}");
+            let rdf_type = Term::iri("http://www.w3.org/1999/02/22-rdf-syntax-ns#type");
+            for (i, n) in ["alice", "bob", "carol"].iter().enumerate() {
+                st.insert(Triple::new(ex(n), rdf_type.clone(), foaf("Person")));
+                st.insert(Triple::new(ex(n), foaf("name"), Term::literal(names[i])));
+                st.insert(Triple::new(ex(n), ex("name"), Term::literal(names[i])));
+            }
+            st.insert(Triple::new(ex("alice"), foaf("age"), Term::typed_literal("30", xsd("integer"))));
+            st.insert(Triple::new(ex("bob"), foaf("age"), Term::typed_literal("9223372036854775807", xsd("integer"))));
+            st.insert(Triple::new(ex("carol"), foaf("age"), Term::typed_literal("0", xsd("integer"))));
+            st.insert(Triple::new(ex("alice"), ex("age"), Term::typed_literal("-9223372036854775808", xsd("integer"))));
+            st.insert(Triple::new(ex("alice"), foaf("knows"), ex("bob")));
+            st.insert(Triple::new(ex("bob"), foaf("knows"), ex("carol")));
+            st.insert(Triple::new(ex("carol"), foaf("knows"), ex("alice")));
+            st.insert(Triple::new(ex("alice"), ex("score"), Term::typed_literal("1.5e0", xsd("double"))));
+            st.insert(Triple::new(ex("bob"), ex("score"), Term::typed_literal("NaN", xsd("double"))));
+            st.insert(Triple::new(ex("carol"), ex("score"), Term::typed_literal("not a number", xsd("integer"))));
+            st.insert(Triple::new(ex("carol"), ex("label"), Term::lang_literal("Zoë 日本", "fr")));
+            st.insert(Triple::new(Term::blank("b0"), ex("value"), Term::typed_literal("2024-01-01T00:00:00Z", xsd("dateTime"))));
+            st.insert(Triple::new(ex("bob"), ex("value"), Term::literal("")));
+        }
+        2 => {
+            let mut ns = Vec::new();
+            for i in 0..6i64 {
+                ns.push(db.create_node_with_props(&["K", "Person"], vec![("id".to_string(), Value::Int64(i)), ("name".to_string(), crate::vals::s("k")), ("age".to_string(), Value::Int64(i))]));
+            }
+            for a in 0..6 {
+                for b in 0..6 {
+                    if a != b {
+                        db.create_edge_with_props(ns[a], ns[b], "KNOWS", vec![("w".to_string(), Value::Int64((a * 6 + b) as i64))]);
+                    }
+                }
+            }
+            let st = db.rdf_store();
+            for a in 0..6 {
+                for b in 0..6 {
+                    if a != b {
+                        st.insert(Triple::new(ex(&format!("k{a}")), ex("p"), ex(&format!("k{b}"))));
+                        st.insert(Triple::new(ex(&format!("k{a}")), foaf("knows"), ex(&format!("k{b}"))));
+                    }
+                }
+            }
+        }
+        _ => {}
+    }
+    db
+}
+
+fn err_class(e: &grafeo_common::utils::error::Error) -> String {
+    use grafeo_common::utils::error::Error as E;
+    match e {
+        E::Query(q) => format!("query.{:?}", q.kind).to_lowercase(),
+        other => {
+            let d = format!("{other:?}");
+            d.split(|c: char| !c.is_alphanumeric()).next().unwrap_or("other").to_lowercase()
+        }
+    }
+}
+
+fn clean(s: &str, max: usize) -> String {
+    let mut o: String = s.chars().take(max).map(|c| if c.is_control() { ' ' } else { c }).collect();
+    if s.chars().count() > max {
+        o.push('…');
+    }
+    o
+}
+
+fn call(db: &GrafeoDB, lang: u8, text: &str, params: Option<HashMap<String, Value>>) -> grafeo_common::utils::error::Result<grafeo_engine::database::QueryResult> {
+    let s = db.session();
+    match (lang, params) {
+        (L_GQL, None) => s.execute(text),
+        (L_GQL, Some(p)) => s.execute_with_params(text, p),
+        (L_CYPHER, None) => s.execute_cypher(text),
+        // Session has no execute_cypher_with_params; the database-level entry point has
+        (L_CYPHER, Some(p)) => db.execute_cypher_with_params(text, p),
+        (L_GREMLIN, None) => s.execute_gremlin(text),
+        (L_GREMLIN, Some(p)) => s.execute_gremlin_with_params(text, p),
+        (L_GRAPHQL, None) => s.execute_graphql(text),
+        (L_GRAPHQL, Some(p)) => s.execute_graphql_with_params(text, p),
+        (L_SPARQL, None) => s.execute_sparql(text),
+        (L_SPARQL, Some(p)) => s.execute_sparql_with_params(text, p),
+        _ => unreachable!(),
+    }
+}
+
+#[inline(never)]
+fn selftest_recurse(n: u64, f: fn(u64, usize) -> u64) -> u64 {
+    let mut a = [n; 64];
+    std::hint::black_box(&mut a);
+    let r = std::hint::black_box(f)(n + 1, a.len());
+    std::hint::black_box(&mut a);
+    r.wrapping_add(a[(n % 64) as usize])
+}
+#[inline(never)]
+fn selftest_recurse2(n: u64, _k: usize) -> u64 {
+    selftest_recurse(n, selftest_recurse2)
+}
+
+fn selftest(kind: &str) {
+    match kind {
+        "ok" => {}
+        "panic" => panic!("selftest panic"),
+        "recurse" => {
+            std::hint::black_box(selftest_recurse(0, selftest_recurse2));
+        }
+        "sleep" => loop {
+            std::thread::sleep(Duration::from_millis(100));
+        },
+        "spin" => loop {
+            std::hint::spin_loop();
+        },
+        "alloc" => {
+            let mut keep = Vec::new();
+            loop {
+                let v: Vec<u8> = vec![0u8; 1 << 30];
+                std::hint::black_box(&v);
+                keep.push(v);
+            }
+        }
+        "abort" => std::process::abort(),
+        "segv" => unsafe {
+            std::ptr::write_volatile(std::hint::black_box(8usize as *mut u8), 1);
+        },
+        "exit" => std::process::exit(7),
+        _ => {}
+    }
+}
+
+struct ChildInput {
+    lang: u8,
+    fx: u8,
+    par: String,
+    nest: bool,
+    text: String,
+}
+
+fn translate_only(lang: u8, text: &str) {
+    use grafeo_engine::query as q;
+    let _ = match lang {
+        L_GQL => q::translate_gql(text).map(|_| ()),
+        L_CYPHER => q::translate_cypher(text).map(|_| ()),
+        L_GREMLIN => q::translate_gremlin(text).map(|_| ()),
+        L_GRAPHQL => q::translate_graphql(text).map(|_| ()),
+        _ => q::translate_sparql(text).map(|_| ()),
+    };
+}
+
+/// Panic site without symbolising a backtrace (which costs seconds per panic in a dev binary
+/// with debug info): the panic location of every `#[track_caller]` / arithmetic / indexing panic
+/// is the in-repo source line; the enclosing function is read from the source file. Same
+/// format as `util::catch`'s site: `<file under /repo>::<function>`.
+fn cheap_site(file: &str, line: u32) -> Option<String> {
+    use std::sync::OnceLock;
+    static SRC: OnceLock<Mutex<HashMap<String, Arc<Vec<String>>>>> = OnceLock::new();
+    let cache = SRC.get_or_init(|| Mutex::new(HashMap::new()));
+    let lines = {
+        let mut c = cache.lock().ok()?;
+        if let Some(l) = c.get(file) {
+            l.clone()
+        } else {
+            let body = std::fs::read_to_string(file).ok()?;
+            let l = Arc::new(body.lines().map(String::from).collect::<Vec<_>>());
+            c.insert(file.to_string(), l.clone());
+            l
+        }
+    };
+    // forward scan with a block stack: the innermost enclosing *named* fn of the line
+    let target = (line as usize).min(lines.len());
+    let mut stack: Vec<Option<String>> = Vec::new();
+    let mut pending: Option<String> = None;
+    let mut in_block_comment = false;
+    for raw in lines.iter().take(target.saturating_sub(1)) {
+        let cs: Vec<char> = raw.chars().collect();
+        let mut j = 0;
+        let mut in_str = false;
+        while j < cs.len() {
+            let c = cs[j];
+            if in_block_comment {
+                if c == '*' && cs.get(j + 1) == Some(&'/') {
+                    in_block_comment = false;
+                    j += 1;
+                }
+            } else if in_str {
+                if c == '\\' {
+                    j += 1;
+                } else if c == '"' {
+                    in_str = false;
+                }
+            } else if c == '/' && cs.get(j + 1) == Some(&'/') {
+                break;
+            } else if c == '/' && cs.get(j + 1) == Some(&'*') {
+                in_block_comment = true;
+                j += 1;
+            } else if c == '"' {
+                in_str = true;
+            } else if c == '\'' && cs.get(j + 2) == Some(&'\'') {
+                j += 2; // char literal like '{'
+            } else if c == '\'' && cs.get(j + 1) == Some(&'\\') && cs.get(j + 3) == Some(&'\'') {
+                j += 3; // escaped char literal
+            } else if c == 'f' && cs.get(j + 1) == Some(&'n') && cs.get(j + 2) == Some(&' ') && (j == 0 || !(cs[j - 1].is_alphanumeric() || cs[j - 1] == '_')) {
+                let name: String = cs[j + 3..].iter().take_while(|c| c.is_alphanumeric() || **c == '_').collect();
+                if !name.is_empty() {
+                    pending = Some(name);
+                }
+            } else if c == '{' {
+                stack.push(pending.take());
+            } else if c == '}' {
+                stack.pop();
+            } else if c == ';' && pending.is_some() && !cs[..j].contains(&'{') {
+                pending = None; // declaration without body
+            }
+            j += 1;
+        }
+        // multi-line strings are rare in the engine sources; reset defensively
+        in_str = false;
+        let _ = in_str;
+    }
+    if let Some(name) = stack.iter().rev().find_map(|x| x.clone()) {
+        return Some(format!("{}::{}", util::strip_repo(file), name));
+    }
+    // fallback: nearest preceding fn
+    let mut i = target;
+    while i > 0 {
+        i -= 1;
+        let l = lines[i].trim_start();
+        if l.starts_with("//") {
+            continue;
+        }
+        if let Some(p) = l.find("fn ") {
+            let name: String = l[p + 3..].chars().take_while(|c| c.is_alphanumeric() || *c == '_').collect();
+            if !name.is_empty() {
+                return Some(format!("{}::{}", util::strip_repo(file), name));
+            }
+        }
+    }
+    None
+}
+
+static LAST_GLOBAL: Mutex<(String, String)> = Mutex::new((String::new(), String::new()));
+
+fn install_child_hook() {
+    let prev = std::panic::take_hook();
+    std::panic::set_hook(Box::new(move |info| {
+        if let Some(loc) = info.location()
+            && let Some(site) = cheap_site(loc.file(), loc.line())
+        {
+            let at = format!("{}:{}", util::strip_repo(loc.file()), loc.line());
+            if let Ok(mut g) = LAST_GLOBAL.lock() {
+                *g = (site.clone(), at.clone());
+            }
+            util::LAST_PANIC.with(|l| *l.borrow_mut() = (site, at));
+        } else if info.location().is_some_and(|l| l.file().starts_with('/')) {
+            // panic inside a dependency / std without #[track_caller]: full backtrace (slow, rare)
+            prev(info);
+        } else {
+            let at = info.location().map(|l| format!("{}:{}", l.file(), l.line())).unwrap_or_default();
+            util::LAST_PANIC.with(|l| *l.borrow_mut() = (at.clone(), at));
+        }
+    }));
+}
+
+/// CPU time consumed by this process so far (all threads), milliseconds.
+fn proc_cpu_ms() -> u64 {
+    let mut ts = libc::timespec { tv_sec: 0, tv_nsec: 0 };
+    unsafe {
+        libc::clock_gettime(libc::CLOCK_PROCESS_CPUTIME_ID, &mut ts);
+    }
+    ts.tv_sec as u64 * 1000 + ts.tv_nsec as u64 / 1_000_000
+}
+
+/// Is any thread of this process other than `exclude_tid` runnable (state R) or in
+/// uninterruptible wait (D)? A call whose threads are all sleeping is blocked, not starved.
+fn any_thread_runnable(exclude_tid: i64) -> bool {
+    let Ok(rd) = std::fs::read_dir("/proc/self/task") else { return true };
+    for e in rd.flatten() {
+        let name = e.file_name();
+        let Some(tid) = name.to_str().and_then(|s| s.parse::<i64>().ok()) else { continue };
+        if tid == exclude_tid {
+            continue;
+        }
+        if let Ok(stat) = std::fs::read_to_string(e.path().join("stat")) {
+            if let Some(p) = stat.rfind(')') {
+                let st = stat[p + 1..].trim_start().chars().next().unwrap_or('R');
+                if st == 'R' || st == 'D' {
+                    return true;
+                }
+            }
+        }
+    }
+    false
+}
+
+fn child_main(batch: &str) -> ! {
+    install_child_hook();
+    unsafe {
+        let lim = libc::rlimit { rlim_cur: RLIMIT_AS_BYTES, rlim_max: RLIMIT_AS_BYTES };
+        libc::setrlimit(libc::RLIMIT_AS, &lim);
+        let nocore = libc::rlimit { rlim_cur: 0, rlim_max: 0 };
+        libc::setrlimit(libc::RLIMIT_CORE, &nocore);
+    }
+    let out_path = std::env::var("VH_C12_OUT").expect("VH_C12_OUT");
+    let bound_ms: u64 = std::env::var("VH_C12_BOUND_MS").ok().and_then(|s| s.parse().ok()).unwrap_or(BOUND_S * 1000);
+    let translate_bound_ms: u64 = std::env::var("VH_C12_TRANSLATE_BOUND_MS").ok().and_then(|s| s.parse().ok()).unwrap_or(0);
+    let seed: u64 = std::env::var("VH_C12_SEED").ok().and_then(|s| s.parse().ok()).unwrap_or(1);
+    let body = std::fs::read_to_string(batch).expect("batch file");
+    let mut inputs = Vec::new();
+    for l in body.lines() {
+        let v: serde_json::Value = serde_json::from_str(l).expect("batch line");
+        inputs.push(ChildInput {
+            lang: v[0].as_u64().unwrap() as u8,
+            fx: v[1].as_u64().unwrap() as u8,
+            par: v[2].as_str().unwrap().to_string(),
+            nest: matches!(v[3].as_str(), Some("nest") | Some("explosive")),
+            text: v[5].as_str().unwrap().to_string(),
+        });
+    }
+    drop(body);
+    let out = Arc::new(Mutex::new(std::fs::OpenOptions::new().create(true).append(true).open(&out_path).expect("result file")));
+    let t0 = Instant::now();
+    let cur = Arc::new(AtomicI64::new(-1));
+    let since = Arc::new(AtomicU64::new(0));
+    // bound in force for the running call: translate pre-pass or the real call
+    let bound_now = Arc::new(AtomicU64::new(bound_ms));
+    // process CPU time at the start of the running call
+    let cpu0 = Arc::new(AtomicU64::new(0));
+    {
+        let (cur, since, out, bound_now, cpu0) = (cur.clone(), since.clone(), out.clone(), bound_now.clone(), cpu0.clone());
+        std::thread::Builder::new()
+            .name("c12-watchdog".into())
+            .spawn(move || {
+                // A call has exceeded its bound b when BOTH b of wall-clock have passed AND the
+                // process has either burnt b of CPU time inside the call (it is running, not merely
+                // starved by other load on the machine) or has made no CPU progress at all for a
+                // while (it is blocked: sleep, deadlock). On an idle machine this is the plain
+                // wall-clock bound for a spinning call; on an overloaded one it does not fire early.
+                let mut seen: (i64, u64) = (-1, 0);
+                // blocked-call detection: samples of "some thread is runnable" over a window
+                let my_tid = unsafe { libc::syscall(libc::SYS_gettid) } as i64;
+                let mut win_start = Instant::now();
+                let (mut samples, mut runnable) = (0u32, 0u32);
+                let mut stalled = false;
+                let mut tick = 0u32;
+                let ncpu = std::thread::available_parallelism().map(|n| n.get()).unwrap_or(16) as f64;
+                let mut load_factor = 1.0f64;
+                let mut load_checked = Instant::now() - Duration::from_secs(2);
+                loop {
+                    std::thread::sleep(Duration::from_millis(25));
+                    let i = cur.load(Ordering::SeqCst);
+                    let s = since.load(Ordering::SeqCst);
+                    if i < 0 || s == 0 {
+                        seen = (-1, 0);
+                        continue;
+                    }
+                    let cpu = proc_cpu_ms();
+                    let b = bound_now.load(Ordering::SeqCst);
+                    let window = Duration::from_millis(b.clamp(1_000, 5_000));
+                    if seen != (i, s) {
+                        seen = (i, s);
+                        win_start = Instant::now();
+                        samples = 0;
+                        runnable = 0;
+                        stalled = false;
+                    }
+                    // sample thread states only for calls that have been running for a while
+                    tick = tick.wrapping_add(1);
+                    if tick % 4 == 0 && t0.elapsed().as_millis() as u64 > s + b.min(400) / 2 {
+                        samples += 1;
+                        if any_thread_runnable(my_tid) {
+                            runnable += 1;
+                        }
+                    }
+                    if win_start.elapsed() >= window {
+                        stalled = samples >= 8 && runnable * 20 < samples;
+                        win_start = Instant::now();
+                        samples = 0;
+                        runnable = 0;
+                    }
+                    let now = t0.elapsed().as_millis() as u64;
+                    // on an oversubscribed machine (load average above the core count) the wall-clock
+                    // part of the bound is stretched by the oversubscription factor (at most 10x)
+                    if load_checked.elapsed() > Duration::from_secs(1) {
+                        load_checked = Instant::now();
+                        let l1 = std::fs::read_to_string("/proc/loadavg").ok().and_then(|s| s.split(' ').next().and_then(|x| x.parse::<f64>().ok())).unwrap_or(0.0);
+                        load_factor = (l1 / ncpu).clamp(1.0, 10.0);
+                    }
+                    if (now.saturating_sub(s) as f64) <= b as f64 * load_factor {
+                        continue;
+                    }
+                    let cpu_in_call = cpu.saturating_sub(cpu0.load(Ordering::SeqCst));
+                    if !(cpu_in_call > b || stalled) {
+                        continue;
+                    }
+                    if cur.load(Ordering::SeqCst) == i && since.load(Ordering::SeqCst) == s && bound_now.load(Ordering::SeqCst) == b {
+                        let line = format!("{i}\t{}\t{}\t\t\t\n", if b == bound_ms { "T" } else { "S" }, now - s);
+                        if let Ok(mut f) = out.try_lock() {
+                            let _ = f.write_all(line.as_bytes());
+                        } else if let Ok(mut f) = std::fs::OpenOptions::new().append(true).open(std::env::var("VH_C12_OUT").unwrap()) {
+                            let _ = f.write_all(line.as_bytes());
+                        }
+                        std::process::abort();
+                    }
+                }
+            })
+            .expect("watchdog");
+    }
+    let worker = {
+        let (cur, since, out, bound_now, cpu0) = (cur.clone(), since.clone(), out.clone(), bound_now.clone(), cpu0.clone());
+        std::thread::Builder::new()
+            .name("c12-worker".into())
+            .stack_size(STACK_BYTES)
+            .spawn(move || {
+                let mut fx: Vec<Option<GrafeoDB>> = vec![None, None, None];
+                for (i, inp) in inputs.iter().enumerate() {
+                    // fixtures 3..5: kind 0..2 created freshly for this input alone (every directed input:
+                    // its outcome must not depend on what earlier inputs of the batch did to the data)
+                    let k = (inp.fx % 3) as usize;
+                    if inp.fx >= 3 {
+                        fx[k] = None;
+                    }
+                    if inp.lang != L_SELFTEST && fx[k].is_none() {
+                        fx[k] = Some(build_fixture(k as u8));
+                    }
+                    let params = build_params(&inp.par, seed);
+                    util::LAST_PANIC.with(|l| *l.borrow_mut() = (String::new(), String::new()));
+                    if let Ok(mut g) = LAST_GLOBAL.lock() {
+                        *g = (String::new(), String::new());
+                    }
+                    if translate_bound_ms > 0 && translate_bound_ms < bound_ms && inp.lang != L_SELFTEST && !inp.nest {
+                        bound_now.store(translate_bound_ms, Ordering::SeqCst);
+                        cpu0.store(proc_cpu_ms(), Ordering::SeqCst);
+                        since.store((t0.elapsed().as_millis() as u64).max(1), Ordering::SeqCst);
+                        cur.store(i as i64, Ordering::SeqCst);
+                        let _ = util::catch(|| translate_only(inp.lang, &inp.text));
+                        cur.store(-1, Ordering::SeqCst);
+                        util::LAST_PANIC.with(|l| *l.borrow_mut() = (String::new(), String::new()));
+                        if let Ok(mut g) = LAST_GLOBAL.lock() {
+                            *g = (String::new(), String::new());
+                        }
+                    }
+                    bound_now.store(bound_ms, Ordering::SeqCst);
+                    cpu0.store(proc_cpu_ms(), Ordering::SeqCst);
+                    since.store((t0.elapsed().as_millis() as u64).max(1), Ordering::SeqCst);
+                    cur.store(i as i64, Ordering::SeqCst);
+                    let c_start = proc_cpu_ms();
+                    let r = if inp.lang == L_SELFTEST {
+                        util::catch(|| {
+                            selftest(&inp.text);
+                            Ok((0usize, String::new()))
+                        })
+                    } else {
+                        let db = fx[k].as_ref().unwrap();
+                        util::catch(|| match call(db, inp.lang, &inp.text, params) {
+                            Ok(res) => Ok((res.row_count(), String::new())),
+                            Err(e) => Err((err_class(&e), e.to_string())),
+                        })
+                    };
+                    cur.store(-1, Ordering::SeqCst);
+                    // reported cost of a call: CPU time of the process during the call (wall-clock says
+                    // little on a loaded machine)
+                    let ms = proc_cpu_ms().saturating_sub(c_start);
+                    let line = match r {
+                        Ok(Ok((rows, _))) => format!("{i}\tok\t{ms}\t{rows}\t\t\n"),
+                        Ok(Err((class, msg))) => format!("{i}\terr\t{ms}\t{class}\t\t{}\n", clean(&msg, 100)),
+                        Err(mut p) => {
+                            if p.site.is_empty() {
+                                // the panic was raised on another thread (parallel operator) and re-thrown here
+                                if let Ok(g) = LAST_GLOBAL.lock() {
+                                    p.site = g.0.clone();
+                                    p.at = g.1.clone();
+                                }
+                            }
+                            format!("{i}\tpanic\t{ms}\t{}\t{}\t{}\n", clean(&p.site, 200), clean(&p.at, 200), clean(&p.msg, 160))
+                        }
+                    };
+                    {
+                        let mut f = out.lock().unwrap();
+                        let _ = f.write_all(line.as_bytes());
+                    }
+                    // keep fixtures small and independent of history: rebuild after growth
+                    if inp.lang != L_SELFTEST {
+                        let grown = {
+                            let db = fx[k].as_ref().unwrap();
+                            let base = [(0usize, 0usize, 0usize), (21, 30, 25), (6, 30, 60)][k];
+                            db.node_count() > base.0 + 40 || db.edge_count() > base.1 + 150 || db.rdf_store().len() > base.2 + 120
+                        };
+                        if grown {
+                            fx[k] = None;
+                        }
+                    }
+                }
+            })
+            .expect("worker")
+    };
+    let ok = worker.join().is_ok();
+    std::process::exit(if ok { 0 } else { 3 });
+}
+
+// =====================================================================================
+// parent: running children
+// =====================================================================================
+
+#[derive(Clone, Debug, PartialEq)]
+pub enum Outcome {
+    Ok,
+    Err(String),
+    Panic { site: String, at: String, msg: String },
+    StackOverflow,
+    Rlimit,
+    Abort(String),
+    Signal(String),
+    Exit(i32),
+    Timeout,
+    /// the translate pre-pass alone exceeded TRANSLATE_BOUND_MS (to be judged with the real bounds)
+    Suspect,
+    /// the harness could not run / classify (never a verdict about the engine)
+    Harness(String),
+}
+
+impl Outcome {
+    fn is_death(&self) -> bool {
+        !matches!(self, Outcome::Ok | Outcome::Err(_) | Outcome::Panic { .. })
+    }
+    fn class(&self) -> &'static str {
+        match self {
+            Outcome::Ok => "ok",
+            Outcome::Err(_) => "err",
+            Outcome::Panic { .. } => "panic",
+            Outcome::StackOverflow => "stackoverflow",
+            Outcome::Rlimit => "rlimit",
+            Outcome::Abort(_) => "abort",
+            Outcome::Signal(_) => "signal",
+            Outcome::Exit(_) => "exit",
+            Outcome::Timeout => "timeout",
+            Outcome::Suspect => "suspect",
+            Outcome::Harness(_) => "harness",
+        }
+    }
+}
+
+struct ChildRun {
+    /// (index relative to the slice, outcome, elapsed ms) for every input that returned
+    lines: Vec<(usize, Outcome, u64)>,
+    /// the process died: (relative index of the culprit, outcome class, stderr tail)
+    death: Option<(usize, Outcome, String)>,
+}
+
+static CHILD_SEQ: AtomicUsize = AtomicUsize::new(0);
+static CHILDREN: AtomicUsize = AtomicUsize::new(0);
+
+fn sig_name(s: i32) -> String {
+    match s {
+        libc::SIGSEGV => "SIGSEGV".into(),
+        libc::SIGBUS => "SIGBUS".into(),
+        libc::SIGABRT => "SIGABRT".into(),
+        libc::SIGILL => "SIGILL".into(),
+        libc::SIGFPE => "SIGFPE".into(),
+        libc::SIGKILL => "SIGKILL".into(),
+        libc::SIGTRAP => "SIGTRAP".into(),
+        other => format!("SIG{other}"),
+    }
+}
+
+fn run_child(dir: &Path, inputs: &[Input], bound_ms: u64, seed: u64) -> ChildRun {
+    run_child2(dir, inputs, bound_ms, seed, false)
+}
+
+fn run_child2(dir: &Path, inputs: &[Input], bound_ms: u64, seed: u64, prepass: bool) -> ChildRun {
+    use std::os::unix::process::ExitStatusExt;
+    let id = CHILD_SEQ.fetch_add(1, Ordering::Relaxed);
+    CHILDREN.fetch_add(1, Ordering::Relaxed);
+    let batch = dir.join(format!("b{id}.in"));
+    let outp = dir.join(format!("b{id}.out"));
+    let errp = dir.join(format!("b{id}.err"));
+    {
+        let mut f = std::io::BufWriter::new(std::fs::File::create(&batch).expect("batch file"));
+        for i in inputs {
+            let _ = writeln!(f, "{}", i.to_json());
+        }
+    }
+    let _ = std::fs::write(&outp, b"");
+    let errf = std::fs::File::create(&errp).expect("stderr file");
+    let exe = std::env::current_exe().expect("current_exe");
+    let spawned = std::process::Command::new(exe)
+        .arg("C12")
+        .env("VH_C12_CHILD", &batch)
+        .env("VH_C12_OUT", &outp)
+        .env("VH_C12_BOUND_MS", bound_ms.to_string())
+        .env("VH_C12_SEED", seed.to_string())
+        .env("VH_C12_TRANSLATE_BOUND_MS", if prepass { TRANSLATE_BOUND_MS.to_string() } else { "0".to_string() })
+        .env_remove("VH_PANIC_VERBOSE")
+        .env_remove("VH_BT")
+        .env_remove("RUST_BACKTRACE")
+        .stdin(std::process::Stdio::null())
+        .stdout(std::process::Stdio::null())
+        .stderr(errf)
+        .spawn();
+    let mut child = match spawned {
+        Ok(c) => c,
+        Err(e) => {
+            return ChildRun { lines: vec![], death: Some((0, Outcome::Harness(format!("spawn failed: {e}")), String::new())) };
+        }
+    };
+    // wait; parent-side safety net: no progress in the result file for bound + 30 s => kill
+    let mut last_len = 0u64;
+    let mut last_progress = Instant::now();
+    let mut killed = false;
+    let status = loop {
+        match child.try_wait() {
+            Ok(Some(st)) => break Some(st),
+            Ok(None) => {}
+            Err(_) => break None,
+        }
+        std::thread::sleep(Duration::from_millis(3));
+        if last_progress.elapsed() > Duration::from_millis(500) {
+            let len = std::fs::metadata(&outp).map(|m| m.len()).unwrap_or(0);
+            if len != last_len {
+                last_len = len;
+                last_progress = Instant::now();
+            } else if last_progress.elapsed() > Duration::from_millis(bound_ms * 12 + 60_000) {
+                let _ = child.kill();
+                killed = true;
+            }
+        }
+    };
+    let out = std::fs::read_to_string(&outp).unwrap_or_default();
+    let err = String::from_utf8_lossy(&std::fs::read(&errp).unwrap_or_default()).to_string();
+    let _ = std::fs::remove_file(&batch);
+    let _ = std::fs::remove_file(&outp);
+    let _ = std::fs::remove_file(&errp);
+    let mut lines = Vec::new();
+    let mut timeout_at: Option<usize> = None;
+    let mut suspect = false;
+    for l in out.lines() {
+        let f: Vec<&str> = l.split('\t').collect();
+        if f.len() < 6 {
+            continue;
+        }
+        let Ok(i) = f[0].parse::<usize>() else { continue };
+        let ms: u64 = f[2].parse().unwrap_or(0);
+        match f[1] {
+            "ok" => lines.push((i, Outcome::Ok, ms)),
+            "err" => lines.push((i, Outcome::Err(f[3].to_string()), ms)),
+            "panic" => lines.push((i, Outcome::Panic { site: f[3].to_string(), at: f[4].to_string(), msg: f[5].to_string() }, ms)),
+            "T" => timeout_at = Some(i),
+            "S" => {
+                timeout_at = Some(i);
+                suspect = true;
+            }
+            _ => {}
+        }
+    }
+    let tail: String = {
+        let ls: Vec<&str> = err.lines().filter(|l| !l.trim().is_empty()).collect();
+        ls[ls.len().saturating_sub(6)..].join(" | ")
+    };
+    let tail = clean(&tail, 600);
+    let next = lines.iter().map(|x| x.0 + 1).max().unwrap_or(0);
+    let done = next >= inputs.len() && timeout_at.is_none();
+    let death = match status {
+        Some(st) if st.success() && done => None,
+        Some(st) => {
+            let o = if timeout_at.is_some() {
+                if suspect { Outcome::Suspect } else { Outcome::Timeout }
+            } else if killed {
+                Outcome::Harness("child made no progress and ignored its watchdog; killed by the parent".into())
+            } else if err.contains("has overflowed its stack") || err.contains("stack overflow") {
+                Outcome::StackOverflow
+            } else if err.contains("memory allocation of") || err.contains("out of memory") {
+                Outcome::Rlimit
+            } else if let Some(s) = st.signal() {
+                if s == libc::SIGABRT {
+                    Outcome::Abort(tail.clone())
+                } else if s == libc::SIGKILL {
+                    Outcome::Harness("child killed by SIGKILL (OOM killer?)".into())
+                } else {
+                    Outcome::Signal(sig_name(s))
+                }
+            } else if st.code() == Some(3) {
+                Outcome::Harness(format!("child worker thread failed: {tail}"))
+            } else if st.success() {
+                Outcome::Harness("child exited 0 before finishing its batch".into())
+            } else {
+                Outcome::Exit(st.code().unwrap_or(-1))
+            };
+            Some((timeout_at.unwrap_or(next).min(inputs.len().saturating_sub(1)), o, tail))
+        }
+        None => Some((next.min(inputs.len().saturating_sub(1)), Outcome::Harness("wait failed".into()), tail)),
+    };
+    ChildRun { lines, death }
+}
+
+// =====================================================================================
+// parent: accumulation
+// =====================================================================================
+
+#[derive(Default)]
+struct Acc {
+    counters: BTreeMap<String, u64>,
+    /// signature -> (occurrences, smallest witness, detail)
+    deviations: BTreeMap<String, (u64, Input, serde_json::Value)>,
+    nontrivial: HashSet<u64>,
+    evals: u64,
+    inconclusive: Vec<String>,
+    samples: Vec<serde_json::Value>,
+    nesting: BTreeMap<String, serde_json::Value>,
+    max_ms: BTreeMap<String, (u64, String)>,
+    selftest: BTreeMap<String, String>,
+    /// panic signature -> (a witness reproduced alone, attempts)
+    alone: BTreeMap<String, (bool, u32)>,
+    /// suspected translate hangs seen per signature
+    suspects: BTreeMap<String, u32>,
+    /// development aid: VH_C12_DUMP=<file> logs one line per judged input
+    dump: Option<std::io::BufWriter<std::fs::File>>,
+}
+
+impl Acc {
+    fn count(&mut self, k: String, n: u64) {
+        *self.counters.entry(k).or_insert(0) += n;
+    }
+    fn deviation(&mut self, sig: String, inp: &Input, detail: serde_json::Value) {
+        let e = self.deviations.entry(sig).or_insert_with(|| (0, inp.clone(), detail.clone()));
+        e.0 += 1;
+        let alone = |d: &serde_json::Value| d["extra"]["reproduces_alone_on_fresh_fixture"] == json!(true);
+        if (alone(&detail) && !alone(&e.2)) || (alone(&detail) == alone(&e.2) && inp.text.len() < e.1.text.len()) {
+            e.1 = inp.clone();
+            e.2 = detail;
+        }
+    }
+}
+
+/// Coarse, input-independent class of a panic message: digits and punctuation dropped,
+/// first seven words ("attempt to add with overflow", "byte index is not a char boundary").
+pub fn msg_class(msg: &str) -> String {
+    let t: String = msg.chars().map(|c| if c.is_ascii_alphabetic() { c.to_ascii_lowercase() } else { ' ' }).collect();
+    let w: Vec<&str> = t.split_whitespace().take(7).collect();
+    if w.is_empty() { "panic".into() } else { w.join("-") }
+}
+
+pub fn signature(lang: u8, o: &Outcome, cons: &str) -> String {
+    let l = lang_name(lang);
+    match o {
+        Outcome::Panic { site, msg, .. } => format!("c12:{l}:panic@{site}:{}", msg_class(msg)),
+        Outcome::StackOverflow => format!("c12:{l}:stackoverflow@stackoverflow:{cons}"),
+        Outcome::Timeout => format!("c12:{l}:timeout@timeout:{cons}"),
+        Outcome::Rlimit => format!("c12:{l}:rlimit@rlimit:{cons}"),
+        Outcome::Abort(_) => format!("c12:{l}:abort@abort:{cons}"),
+        Outcome::Signal(s) => format!("c12:{l}:signal@{s}:{cons}"),
+        Outcome::Exit(c) => format!("c12:{l}:exit@exit{c}:{cons}"),
+        _ => format!("c12:{l}:{}", o.class()),
+    }
+}
+
+fn record(acc: &Mutex<Acc>, inp: &Input, o: &Outcome, ms: u64, extra: serde_json::Value) {
+    let mut a = acc.lock().unwrap();
+    let l = lang_name(inp.lang);
+    if let Some(f) = a.dump.as_mut() {
+        let site = if let Outcome::Panic { site, msg, .. } = o { format!("{site} {msg}") } else { String::new() };
+        let _ = writeln!(f, "{l}\t{}\t{}\t{}\t{}\t{ms}\t{}\t{}", inp.fam, inp.fx, inp.par, match o { Outcome::Err(c) => format!("err.{c}"), x => x.class().to_string() }, clean(&inp.text, 300), site);
+    }
+    a.evals += 1;
+    a.count(format!("{l}.inputs"), 1);
+    a.count(format!("{l}.fam.{}", inp.fam), 1);
+    let cls = match o {
+        Outcome::Err(c) => format!("err.{c}"),
+        other => other.class().to_string(),
+    };
+    a.count(format!("{l}.outcome.{cls}"), 1);
+    if !inp.par.is_empty() {
+        a.count(format!("{l}.with_params"), 1);
+    }
+    a.count(format!("fixture.{}{}", ["empty", "small", "clique"][(inp.fx % 3) as usize], if inp.fx >= 3 { ".fresh" } else { ".shared" }), 1);
+    if matches!(o, Outcome::Ok | Outcome::Err(_)) {
+        let m = a.max_ms.entry(l.to_string()).or_insert((0, String::new()));
+        if ms > m.0 {
+            *m = (ms, clean(&inp.text, 120));
+        }
+    }
+    // non-trivial: got past lexer and parser, or deviated
+    let past_parser = match o {
+        Outcome::Ok => true,
+        Outcome::Err(c) => c != "query.lexer" && c != "query.syntax",
+        _ => true,
+    };
+    if past_parser {
+        a.nontrivial.insert(crate::rng::hash_str(&format!("{}|{}|{}|{}", inp.lang, inp.fx, inp.par, inp.text)));
+    }
+    if a.samples.len() < 40 && (a.evals % 997 == 1) {
+        let s = json!({"lang": l, "family": inp.fam, "fixture": inp.fx, "params": inp.par, "text": clean(&inp.text, 200), "outcome": cls});
+        a.samples.push(s);
+    }
+    match o {
+        Outcome::Ok | Outcome::Err(_) => {}
+        Outcome::Harness(why) => {
+            let w = format!("harness: {why} (lang {l}, family {})", inp.fam);
+            if a.inconclusive.len() < 20 {
+                a.inconclusive.push(w);
+            }
+        }
+        _ => {
+            let sig = signature(inp.lang, o, &inp.cons);
+            let mut d = json!({
+                "language": l, "family": inp.fam, "fixture": inp.fx, "params": inp.par,
+                "input": if inp.text.len() <= 400 { inp.text.clone() } else { format!("{} … ({} bytes)", clean(&inp.text, 120), inp.text.len()) },
+                "outcome": o.class(), "elapsed_ms": ms,
+            });
+            if let Outcome::Panic { at, msg, .. } = o {
+                d["panic_at"] = json!(at);
+                d["panic_msg"] = json!(msg);
+            }
+            if let Outcome::Abort(t) = o {
+                d["stderr"] = json!(t);
+            }
+            if !extra.is_null() {
+                d["extra"] = extra;
+            }
+            a.deviation(sig, inp, d);
+        }
+    }
+}
+
+/// Run a batch to completion: continue after every death; confirm each culprit alone.
+fn process_batch(dir: &Path, acc: &Mutex<Acc>, inputs: &[Input], seed: u64) {
+    let mut from = 0usize;
+    while from < inputs.len() {
+        let r = run_child2(dir, &inputs[from..], BOUND_S * 1000, seed, true);
+        for (i, o, ms) in &r.lines {
+            if from + i >= inputs.len() {
+                continue;
+            }
+            let inp = &inputs[from + i];
+            let mut extra = serde_json::Value::Null;
+            if let Outcome::Panic { .. } = o {
+                // a panic seen inside a batch may depend on what earlier inputs did to the fixture:
+                // until a signature has a witness that reproduces alone on fresh fixtures, try (≤ 6 times)
+                let sig = signature(inp.lang, o, &inp.cons);
+                let need = {
+                    let mut a = acc.lock().unwrap();
+                    let st = a.alone.entry(sig.clone()).or_insert((false, 0));
+                    if !st.0 && st.1 < 6 {
+                        st.1 += 1;
+                        true
+                    } else {
+                        false
+                    }
+                };
+                if need {
+                    let (o2, _, _) = run_alone(dir, inp, BOUND_S * 1000, seed);
+                    let same = signature(inp.lang, &o2, &inp.cons) == sig;
+                    if same {
+                        acc.lock().unwrap().alone.get_mut(&sig).unwrap().0 = true;
+                    }
+                    extra = json!({"reproduces_alone_on_fresh_fixture": same});
+                }
+            }
+            record(acc, inp, o, *ms, extra);
+        }
+        let Some((rel, mut kind, tail)) = r.death else { break };
+        let k = from + rel;
+        if kind == Outcome::Suspect {
+            // translate alone exceeded the short bound: judge with the real entry point and the real
+            // bound, alone — for the first few per signature; the rest are counted, not judged
+            let mut t = inputs[k].clone();
+            t.cons = "translate".into();
+            let sig = signature(t.lang, &Outcome::Timeout, &t.cons);
+            let go = {
+                let mut a = acc.lock().unwrap();
+                a.count(format!("{}.translate_over_{}ms", lang_name(t.lang), TRANSLATE_BOUND_MS), 1);
+                let n = a.suspects.entry(sig).or_insert(0);
+                *n += 1;
+                *n <= SUSPECT_CONFIRMATIONS
+            };
+            if !go {
+                let mut a = acc.lock().unwrap();
+                a.count(format!("{}.suspected_translate_hang_not_judged", lang_name(t.lang)), 1);
+                from = k + 1;
+                continue;
+            }
+            let (o, ms, _) = run_alone(dir, &t, BOUND_S * 1000, seed);
+            if o != Outcome::Timeout {
+                // false suspicion (slow machine) or another outcome: that is the judgement
+                record(acc, &inputs[k], &o, ms, json!({"note": "translate pre-pass was slow, real call judged alone"}));
+                let mut a = acc.lock().unwrap();
+                if let Some(n) = a.suspects.get_mut(&signature(t.lang, &Outcome::Timeout, &t.cons)) {
+                    *n -= 1;
+                }
+                from = k + 1;
+                continue;
+            }
+            kind = Outcome::Timeout;
+            let alone = run_child(dir, std::slice::from_ref(&t), CONFIRM_BOUND_S * 1000, seed);
+            match alone.death {
+                Some((_, k2, tail2)) => {
+                    let extra = json!({"phase": "translate (lex/parse/translate) did not return", "alone": k2.class(), "stderr": tail2, "confirm_bound_ms": CONFIRM_BOUND_S * 1000});
+                    record(acc, &t, &k2, bound_of(&k2, CONFIRM_BOUND_S * 1000), extra);
+                }
+                None => {
+                    let (o, ms) = alone.lines.first().map(|x| (x.1.clone(), x.2)).unwrap_or((Outcome::Harness("no result line".into()), 0));
+                    record(acc, &t, &o, ms, json!({"note": "exceeded 10 s alone once, returned within 60 s"}));
+                    let mut a = acc.lock().unwrap();
+                    a.count("unreproduced.timeout".into(), 1);
+                    if a.inconclusive.len() < 20 {
+                        a.inconclusive.push(format!("timeout (> {BOUND_S} s) not reproduced within {CONFIRM_BOUND_S} s (returned after {ms} ms): {} input {}", lang_name(t.lang), clean(&t.text, 120)));
+                    }
+                }
+            }
+            let _ = kind;
+            from = k + 1;
+            continue;
+        }
+        if let Outcome::Harness(_) = kind {
+            record(acc, &inputs[k], &kind, 0, json!({"stderr": tail}));
+            from = k + 1;
+            continue;
+        }
+        // the single culprit alone (fresh fixtures); a timeout gets the long bound
+        let bound = if kind == Outcome::Timeout { CONFIRM_BOUND_S } else { BOUND_S } * 1000;
+        let alone = run_child(dir, &inputs[k..=k], bound, seed);
+        match alone.death {
+            Some((_, k2, tail2)) => {
+                let extra = json!({"in_batch": kind.class(), "alone": k2.class(), "stderr": tail2, "confirm_bound_ms": bound});
+                record(acc, &inputs[k], &k2, bound_of(&k2, bound), extra);
+            }
+            None => {
+                let (o, ms) = alone.lines.first().map(|x| (x.1.clone(), x.2)).unwrap_or((Outcome::Harness("no result line".into()), 0));
+                record(acc, &inputs[k], &o, ms, json!({"note": "died in batch, returned alone", "in_batch": kind.class()}));
+                let mut a = acc.lock().unwrap();
+                a.count(format!("unreproduced.{}", kind.class()), 1);
+                let why = if kind == Outcome::Timeout {
+                    format!(
+                        "timeout (> {BOUND_S} s) in a batch was not reproduced alone within {CONFIRM_BOUND_S} s (returned after {ms} ms): {} input {}",
+                        lang_name(inputs[k].lang),
+                        clean(&inputs[k].text, 120)
+                    )
+                } else {
+                    format!(
+                        "child death ({}) in a batch was not reproduced by the culprit alone: {} input {} [{}]",
+                        kind.class(),
+                        lang_name(inputs[k].lang),
+                        clean(&inputs[k].text, 120),
+                        clean(&tail, 200)
+                    )
+                };
+                if a.inconclusive.len() < 20 {
+                    a.inconclusive.push(why);
+                }
+            }
+        }
+        from = k + 1;
+    }
+}
+fn bound_of(o: &Outcome, bound: u64) -> u64 {
+    if *o == Outcome::Timeout { bound } else { 0 }
+}
+
+/// Outcome of one input alone.
+fn run_alone(dir: &Path, inp: &Input, bound_ms: u64, seed: u64) -> (Outcome, u64, String) {
+    let r = run_child(dir, std::slice::from_ref(inp), bound_ms, seed);
+    match r.death {
+        Some((_, o, tail)) => (o, 0, tail),
+        None => r.lines.first().map(|x| (x.1.clone(), x.2, String::new())).unwrap_or((Outcome::Harness("no result line".into()), 0, String::new())),
+    }
+}
+
+/// a timeout in the nesting family is a deviation only for texts up to this size
+const NEST_TIMEOUT_MAX_BYTES: usize = 64 << 10;
+pub const LADDER: [usize; 9] = [10, 30, 100, 300, 1000, 3000, 10_000, 30_000, 100_000];
+
+/// Depth ladder for one nesting construct: every rung alone in a child, ascending, until the
+/// first death; then bisect between the last surviving and the first dying depth.
+fn process_nest(dir: &Path, acc: &Mutex<Acc>, spec: &cgen::Nest, seed: u64) {
+    let mk = |d: usize| Input::new(spec.lang, spec.fx, "nest", (spec.make)(d)).cons(spec.name);
+    let mut last_ok = 0usize;
+    let mut first_bad: Option<(usize, Outcome, String)> = None;
+    let mut rungs = Vec::new();
+    let mut slow_large: Option<(usize, usize)> = None;
+    for &d in &LADDER {
+        let inp = mk(d);
+        let (mut o, ms, mut tail) = run_alone(dir, &inp, BOUND_S * 1000, seed);
+        if o == Outcome::Timeout && inp.text.len() > NEST_TIMEOUT_MAX_BYTES {
+            // super-linear time on a very large text is not "hangs on small input": evidence only
+            rungs.push(json!({"depth": d, "outcome": "slow", "bytes": inp.text.len()}));
+            slow_large = Some((d, inp.text.len()));
+            break;
+        }
+        if o == Outcome::Timeout {
+            // confirmation with the long bound
+            let (o2, ms2, tail2) = run_alone(dir, &inp, CONFIRM_BOUND_S * 1000, seed);
+            if !o2.is_death() {
+                let mut a = acc.lock().unwrap();
+                a.count("unreproduced.timeout".into(), 1);
+                if a.inconclusive.len() < 20 {
+                    a.inconclusive.push(format!(
+                        "nesting {}:{} depth {d}: exceeded {BOUND_S} s once, returned alone after {ms2} ms",
+                        lang_name(spec.lang),
+                        spec.name
+                    ));
+                }
+            }
+            o = o2;
+            tail = tail2;
+        }
+        rungs.push(json!({"depth": d, "outcome": o.class(), "ms": ms, "bytes": inp.text.len()}));
+        if o.is_death() && !matches!(o, Outcome::Harness(_)) {
+            first_bad = Some((d, o, tail));
+            break;
+        }
+        record(acc, &inp, &o, ms, json!({"depth": d}));
+        last_ok = d;
+    }
+    let key = format!("{}:{}", lang_name(spec.lang), spec.name);
+    if let Some((mut hi, mut o_hi, mut tail_hi)) = first_bad {
+        let mut lo = last_ok;
+        // bisect (not for timeouts: each probe would cost the full bound)
+        if o_hi != Outcome::Timeout {
+            while hi - lo > (lo / 50).max(1) {
+                let mid = lo + (hi - lo) / 2;
+                let (o, _, tail) = run_alone(dir, &mk(mid), BOUND_S * 1000, seed);
+                acc.lock().unwrap().evals += 1;
+                if o.is_death() && !matches!(o, Outcome::Harness(_)) && o != Outcome::Timeout {
+                    hi = mid;
+                    o_hi = o;
+                    tail_hi = tail;
+                } else {
+                    lo = mid;
+                }
+            }
+        }
+        let inp = mk(hi);
+        let extra = json!({"construct": spec.name, "smallest_failing_depth": hi, "largest_surviving_depth_probed": lo,
+            "input_shape": clean(&(spec.make)(3), 200), "stderr": tail_hi, "ladder": rungs});
+        record(acc, &inp, &o_hi, bound_of(&o_hi, CONFIRM_BOUND_S * 1000), extra);
+        acc.lock().unwrap().nesting.insert(key, json!({"first_failing_depth": hi, "outcome": o_hi.class(), "survives": lo}));
+    } else {
+        acc.lock().unwrap().nesting.insert(key, json!({"first_failing_depth": null, "survives": last_ok, "ladder": rungs,
+            "slow_on_large_text": slow_large.map(|(d, b)| json!({"depth": d, "bytes": b, "note": "did not return within the confirmation bound; text larger than the size for which a timeout counts"}))}));
+    }
+}
+
+/// Harness self-test: every outcome class the monitor claims to detect is produced on purpose
+/// by a pseudo-input and must be classified correctly, on every run.
+fn process_selftest(dir: &Path, acc: &Mutex<Acc>, seed: u64) {
+    let cases: [(&str, &str); 8] = [
+        ("ok", "ok"),
+        ("panic", "panic"),
+        ("recurse", "stackoverflow"),
+        ("sleep", "timeout"),
+        ("spin", "timeout"),
+        ("alloc", "rlimit"),
+        ("abort", "abort"),
+        ("segv", "signal"),
+    ];
+    // as one batch (detection + continuation after each death) with a short bound
+    let inputs: Vec<Input> = cases.iter().map(|(k, _)| Input::new(L_SELFTEST, 0, "selftest", *k)).collect();
+    let mut got: BTreeMap<String, String> = BTreeMap::new();
+    let mut from = 0;
+    while from < inputs.len() {
+        let r = run_child(dir, &inputs[from..], 5000, seed);
+        for (i, o, _) in &r.lines {
+            got.insert(inputs[from + i].text.clone(), o.class().to_string());
+        }
+        match r.death {
+            Some((rel, o, _)) => {
+                got.insert(inputs[from + rel].text.clone(), o.class().to_string());
+                from += rel + 1;
+            }
+            None => break,
+        }
+    }
+    let mut a = acc.lock().unwrap();
+    for (k, want) in cases {
+        let g = got.get(k).cloned().unwrap_or_else(|| "missing".into());
+        if g != want {
+            a.inconclusive.push(format!("self-test: pseudo-input '{k}' classified as '{g}', expected '{want}' — outcome detection is broken"));
+        }
+        a.selftest.insert(k.to_string(), g);
+    }
+}
+
+pub enum Task {
+    Batch(Vec<Input>),
+    /// generated lazily in the worker: (language, batch number, inputs)
+    Random(u8, u64, usize),
+    Nest(cgen::Nest),
+    SelfTest,
+}
+
+pub fn run(tier: Tier, seed: u64) -> ! {
+    if let Ok(b) = std::env::var("VH_C12_CHILD") {
+        child_main(&b);
+    }
+    let mut rep = Report::new("C12", tier, seed, "exploration");
+    rep.rule = "one evaluation = one (language, fixture, parameter map, query text) handed to Session::execute* in an isolated child; \
+                non-trivial = the text got past lexer and parser (result, or an error other than lexer/syntax) or ended in a deviation; \
+                distinct by hash of (language, fixture, params, text)"
+        .into();
+    let dir = util::scratch_dir("c12");
+
+    // ---- task list ----------------------------------------------------------------------
+    let mut tasks: Vec<Task> = vec![Task::SelfTest];
+    let only_lang: Option<u8> = std::env::var("VH_C12_LANG").ok().and_then(|s| LANGS.iter().position(|l| *l == s).map(|x| x as u8));
+    let no_random = std::env::var("VH_C12_NO_RANDOM").is_ok();
+    let no_nest = std::env::var("VH_C12_NO_NEST").is_ok();
+    let no_directed = std::env::var("VH_C12_NO_DIRECTED").is_ok();
+    let (rand_total, batch) = tier.pick((5_000usize, 250usize), (200_000usize, 2_000usize));
+    let rand_total: usize = std::env::var("VH_C12_RANDOM").ok().and_then(|s| s.parse().ok()).unwrap_or(rand_total);
+    let langs: Vec<u8> = (0..5u8).filter(|l| only_lang.is_none_or(|o| o == *l)).collect();
+    // long-running work first (better packing): explosive directed inputs each alone, then the
+    // nesting ladders, then the ordinary batches
+    let mut directed: Vec<Vec<Input>> = Vec::new();
+    for &lang in &langs {
+        if no_directed {
+            continue;
+        }
+        let (slow, fast): (Vec<Input>, Vec<Input>) = cgen::directed(lang).into_iter().partition(|i| i.fam == "explosive");
+        for s in slow {
+            tasks.push(Task::Batch(vec![s]));
+        }
+        directed.push(fast);
+    }
+    if !no_nest {
+        for &lang in &langs {
+            for n in cgen::nests(lang) {
+                tasks.push(Task::Nest(n));
+            }
+        }
+    }
+    for fast in &directed {
+        for c in fast.chunks(400) {
+            tasks.push(Task::Batch(c.to_vec()));
+        }
+    }
+    if !no_random {
+        let nb = rand_total.div_ceil(batch);
+        for b in 0..nb {
+            for &lang in &langs {
+                tasks.push(Task::Random(lang, b as u64, batch.min(rand_total - b * batch)));
+            }
+        }
+    }
+    // ---- pool ---------------------------------------------------------------------------
+    let acc = Mutex::new(Acc { dump: std::env::var("VH_C12_DUMP").ok().and_then(|p| std::fs::File::create(p).ok()).map(std::io::BufWriter::new), ..Acc::default() });
+    let next = AtomicUsize::new(0);
+    std::thread::scope(|sc| {
+        for _ in 0..PARALLEL {
+            sc.spawn(|| loop {
+                let i = next.fetch_add(1, Ordering::SeqCst);
+                if i >= tasks.len() {
+                    break;
+                }
+                match &tasks[i] {
+                    Task::Batch(v) => process_batch(&dir, &acc, v, seed),
+                    Task::Random(lang, b, n) => {
+                        let v = cgen::random_batch(*lang, seed, *b, *n);
+                        process_batch(&dir, &acc, &v, seed);
+                    }
+                    Task::Nest(n) => process_nest(&dir, &acc, n, seed),
+                    Task::SelfTest => process_selftest(&dir, &acc, seed),
+                }
+            });
+        }
+    });
+    let _ = std::fs::remove_dir_all(&dir);
+
+    // ---- report -------------------------------------------------------------------------
+    let acc = acc.into_inner().unwrap();
+    rep.evals(acc.evals);
+    for h in &acc.nontrivial {
+        rep.nontrivial(*h);
+    }
+    for (k, v) in &acc.counters {
+        rep.count(k, *v);
+    }
+    rep.count("children_spawned", CHILDREN.load(Ordering::Relaxed) as u64);
+    rep.max_samples = 40;
+    for s in &acc.samples {
+        rep.sample(s.clone());
+    }
+    let mut devs = serde_json::Map::new();
+    for (sig, (n, _inp, detail)) in &acc.deviations {
+        let mut d = detail.clone();
+        d["occurrences"] = json!(n);
+        devs.insert(sig.clone(), d.clone());
+        rep.deviation(sig, d);
+    }
+    rep.extra.insert("signatures_observed".into(), serde_json::Value::Object(devs));
+    rep.extra.insert("nesting".into(), json!(acc.nesting));
+    rep.extra.insert("slowest_returning_input_ms".into(), json!(acc.max_ms.iter().map(|(k, v)| (k.clone(), json!({"ms": v.0, "input": v.1}))).collect::<BTreeMap<_, _>>()));
+    rep.extra.insert("selftest_outcome_detection".into(), json!(acc.selftest));
+    rep.extra.insert(
+        "bounds".into(),
+        json!({"per_call_s": BOUND_S, "timeout_confirmation_alone_s": CONFIRM_BOUND_S, "address_space_bytes": RLIMIT_AS_BYTES, "stack_bytes": STACK_BYTES, "children_in_parallel": PARALLEL}),
+    );
+    for w in &acc.inconclusive {
+        rep.inconclusive(w);
+    }
+    rep.assumptions = vec![
+        "'all strings' is sampled: fixed directed corpus + seeded random generation/mutation per language".into(),
+        format!("'bounded time' is a wall-clock proxy: {BOUND_S} s per call, a timeout counts only if it reproduces alone within a {CONFIRM_BOUND_S} s bound"),
+        "'exhausts memory' is observed as an allocation failure under RLIMIT_AS = 4 GiB in the child".into(),
+        "calls run on a thread with an 8 MiB stack (the default main-thread stack of an embedding application)".into(),
+        "dev profile (overflow checks on), the profile a plain `cargo build` of an embedding application gets".into(),
+        "query strings are &str, hence valid UTF-8; invalid UTF-8 cannot be handed to the Rust entry points".into(),
+    ];
+    rep.finish()
 }
